@@ -33,7 +33,7 @@ Step(e) ==
 
 \* the observation: number of equations, zero-ness class of the 50 digit residual, and the
 \* public helpers equilibrium_quotients / composition_conservation at the judged state
-ObsLen(e)   == ~e.obs.raised /\ e.obs.len = NEq(sys, e.rp)
+ObsLen(e)   == ~e.obs.raised /\ e.obs.len = NEq(sys, e.rp) /\ WrittenLegal(e.opt[5], e.wr)
 ObsZero(e)  == IF expd.zero THEN e.obs.cls = "zero" ELSE e.obs.cls = "nonzero"
 ObsQ(e)     == e.obs.q = expd.q
 ObsTot(e)   == e.obs.keys = sys.ks /\ e.obs.totc = expd.totc /\ e.obs.tot0 = expd.tot0
